@@ -77,6 +77,7 @@ class Helper:
         body = list(node.body)
         if body and isinstance(body[0], ast.Expr) and isinstance(body[0].value, ast.Constant) and isinstance(body[0].value.value, str):
             body = body[1:]
+        body = [b for b in body if not isinstance(b, ast.Global)]
         self.body = body
         self.expr = body[0].value if len(body) == 1 and isinstance(body[0], ast.Return) and body[0].value is not None else None
         self.unique = False
@@ -101,6 +102,8 @@ class Helper:
                     continue
                 if isinstance(x, ast.Try) and not _has_return([x]):
                     continue        # a try block without a return inside moves as a whole
+                if isinstance(x, ast.Global) and not (set(x.names) & _stored_names(n.body)):
+                    continue        # a `global` declaration for names the helper only reads says nothing
                 return False
             if isinstance(x, ast.Call):
                 f = x.func
@@ -429,6 +432,9 @@ def _first_evaluated_call(stmt, call):
     while True:
         if e is call:
             return True
+        if isinstance(e, (ast.Yield, ast.Await)) and e.value is not None:
+            e = e.value
+            continue
         if isinstance(e, ast.UnaryOp):
             e = e.operand
         elif isinstance(e, ast.Compare):
